@@ -500,7 +500,7 @@ pub fn property() -> Property {
         id: "C11",
         run,
         budget: |t| match t {
-            Tier::Quick => 2400,
+            Tier::Quick => 6000,
             Tier::Thorough => 200_000,
         },
         wall_cap_s: |t| match t {
